@@ -136,6 +136,16 @@ func (s *state) unmarshal(data []byte, fixItem fix.Item) error {
 
 		cnt := noKv.Value.Value().(int)
 		startNoTag := bytes.Index(data, append([]byte(noKv.Key), '='))
+		// The count tag is only recognised at a field boundary: skip occurrences
+		// inside a value ("58=146=2") or at the end of a longer tag ("1146=").
+		for startNoTag > 0 && data[startNoTag-1] != fix.Delimiter[0] {
+			next := bytes.Index(data[startNoTag+1:], append([]byte(noKv.Key), '='))
+			if next == -1 {
+				startNoTag = -1
+				break
+			}
+			startNoTag += next + 1
+		}
 		if startNoTag == -1 {
 			return nil
 		}
